@@ -50,6 +50,7 @@ pub fn record(family: &str, args: &[String]) -> i32 {
         "lex" => lexrec::record(args),
         "lawtable" => table::record_lawtable(args),
         "interp" => interprec::record(args),
+        "corpus" => interprec::record_corpus(args),
         "cli" => cli::record(args),
         _ => {
             eprintln!("no recorder for family {}", family);
